@@ -1,6 +1,9 @@
 package openapi
 
 import (
+	"strings"
+	"unicode/utf8"
+
 	"github.com/jsightapi/jsight-api-core/catalog"
 )
 
@@ -27,7 +30,9 @@ func fillPaths(p Paths, c *catalog.Catalog) Error {
 		if k.Protocol() == catalog.HTTP {
 			i := v.(*catalog.HTTPInteraction)
 
-			path := i.Path().String()
+			// The key as it will be written: two paths which differ only in
+			// bytes that are not UTF-8 are one member of the "paths" object.
+			path := jsonKeyText(i.Path().String())
 			if _, exists := p[path]; !exists {
 				pi, err := newPathItem(i)
 				if err != nil {
@@ -45,6 +50,25 @@ func fillPaths(p Paths, c *catalog.Catalog) Error {
 	})
 
 	return castErr(err)
+}
+
+// jsonKeyText returns the text which encoding/json writes for s: every byte
+// which is not a part of a valid UTF-8 sequence becomes U+FFFD.
+func jsonKeyText(s string) string {
+	if utf8.ValidString(s) {
+		return s
+	}
+	var b strings.Builder
+	for i := 0; i < len(s); {
+		r, size := utf8.DecodeRuneInString(s[i:])
+		if r == utf8.RuneError && size == 1 {
+			b.WriteRune(utf8.RuneError)
+		} else {
+			b.WriteString(s[i : i+size])
+		}
+		i += size
+	}
+	return b.String()
 }
 
 func httpInteractionToOperation(i *catalog.HTTPInteraction, c *catalog.Catalog) (*Operation, Error) {
